@@ -114,6 +114,16 @@
    (30) C06_stree_alternation_hypotheses_are_met / C06_stree_alternation_demo_is_not_tree: non-vacuity (c06n_demo: calls
         nested two deep, contexts in callers and callees, an id re-used inside a caller; all events of the run; the
         program is stree and wns but neither tree nor wn).
+   WITHOUT THE HYPOTHESIS no_unwind (end of the file; proofs/MachineNoUnwind.v, MachineGuardForms.v): the tree-
+   program theorems are stated again as C06_contexts_paused_at_every_flush_tree_guard,
+   C06_contexts_active_while_own_code_runs_tree_guard, C06_resume_pause_alternate_guard,
+   C06_run_case_resume_pause_alternate_guard, C06_newest_is_resume_iff_active_guard,
+   C06_all_paused_at_flush_and_end_guard, C06_resumed_while_own_code_runs_guard,
+   C06_resumed_only_in_awaiting_tasks_guard. These forms need no assumption about exceptions unwinding:
+   FutureIsAlreadyComputed is proved unreachable for tree programs, so only the runaway guard's RuntimeError can
+   unwind through asynq's frames, and the hypothesis "the guard has not fired before step n" (forall k < n,
+   guard_fires P (run P k c0) = false; guard_fires is the boolean test at the head of the _execute loop) is a
+   decidable condition on the run.
    NOT PROVED: for stree programs - that a task with tk_ds set on the stack AWAITS the running task / the caller (the
    layer structure of MachineC04/C07 is not ported to the stree invariant, so (7) and its converse are open there; (21)
    and (25) say "on the stack with tk_ds set" instead of "awaits"); programs outside tree/stree/wn/wns - Sync on an
@@ -529,3 +539,87 @@ Print Assumptions C06_stree_alternation_hypotheses_are_met.
 Theorem C06_stree_alternation_demo_is_not_tree : ~ tree c06n_demo /\ ~ wn [] c06n_demo.
 Proof. exact c06n_demo_not_tree. Qed.
 Print Assumptions C06_stree_alternation_demo_is_not_tree.
+
+(* ==== the same WITHOUT an assumption about exceptions unwinding (proofs/MachineNoUnwind.v, MachineGuardForms.v) ====
+   [no_unwind] is replaced by "the MAX_TASK_STACK_SIZE guard has not fired before step n":
+   forall k < n, guard_fires P (run P k c0) = false, where guard_fires is the boolean test at the head of the
+   _execute loop in Machine.step.  For tree programs under a pointwise service the two say the same:
+   FutureIsAlreadyComputed is proved unreachable, so the guard's RuntimeError is the only exception that can
+   unwind through asynq's frames. *)
+From Asynq Require Import proofs.MachineNoUnwind proofs.MachineGuardForms.
+Theorem C06_contexts_paused_at_every_flush_tree_guard : forall P, pointwise P -> forall p, tree p -> forall n,
+  let h := fst (create [] (FTask p) (st0 P)) in
+  let s1 := snd (create [] (FTask p) (st0 P)) in
+  (forall k, (k < n)%nat -> guard_fires P (run P k (start h s1)) = false) ->
+  c_mode (run P n (start h s1)) = MAfterExec ->
+  forall u tk, get u (c_st (run P n (start h s1))) = Some (mkFut None (KTask tk)) ->
+    tk_cact tk = false /\ tk_ds tk = false.
+Proof. exact contexts_paused_at_flush_tree_guard. Qed.
+Print Assumptions C06_contexts_paused_at_every_flush_tree_guard.
+
+Theorem C06_contexts_active_while_own_code_runs_tree_guard : forall P, pointwise P -> forall p, tree p -> forall n t q,
+  let h := fst (create [] (FTask p) (st0 P)) in
+  let s1 := snd (create [] (FTask p) (st0 P)) in
+  (forall k, (k < n)%nat -> guard_fires P (run P k (start h s1)) = false) ->
+  c_mode (run P n (start h s1)) = MRun t q ->
+  (exists tk, get t (c_st (run P n (start h s1))) = Some (mkFut None (KTask tk)) /\ tk_cact tk = true) /\
+  (forall u tk, get u (c_st (run P n (start h s1))) = Some (mkFut None (KTask tk)) -> tk_cact tk = true ->
+     In u (tasks (c_st (run P n (start h s1))))).
+Proof. exact contexts_active_while_running_tree_guard. Qed.
+Print Assumptions C06_contexts_active_while_own_code_runs_tree_guard.
+
+Theorem C06_resume_pause_alternate_guard : forall P, pointwise P -> forall p, tree p -> wn [] p -> forall n t cid,
+  let h := fst (create [] (FTask p) (st0 P)) in
+  let s1 := snd (create [] (FTask p) (st0 P)) in
+  (forall k, (k < n)%nat -> guard_fires P (run P k (start h s1)) = false) ->
+  alternates t cid true (ctx_events t cid (trace (c_st (run P n (start h s1))))).
+Proof. exact resume_pause_alternate_tree_guard. Qed.
+Print Assumptions C06_resume_pause_alternate_guard.
+
+Theorem C06_run_case_resume_pause_alternate_guard : forall P p n t cid,
+  pointwise P -> tree p -> wn [] p ->
+  (forall k, (k < n)%nat -> guard_fires P (run P k
+     (start (fst (create [] (FTask p) (st0 P))) (snd (create [] (FTask p) (st0 P))))) = false) ->
+  alternates t cid true (filter (evk t cid) (snd (run_case P n [p]))).
+Proof. exact run_case_resume_pause_alternate_guard. Qed.
+Print Assumptions C06_run_case_resume_pause_alternate_guard.
+
+Theorem C06_newest_is_resume_iff_active_guard : forall P, pointwise P -> forall p, tree p -> wn [] p -> forall n t cid,
+  let h := fst (create [] (FTask p) (st0 P)) in
+  let s1 := snd (create [] (FTask p) (st0 P)) in
+  (forall k, (k < n)%nat -> guard_fires P (run P k (start h s1)) = false) ->
+  let s := c_st (run P n (start h s1)) in
+  (exists rest, filter (evk t cid) (trace s) = EvResume t cid :: rest) <->
+  (exists tk f, get t s = Some (mkFut None (KTask tk)) /\ tk_cact tk = true /\ In (CAsync cid f) (tk_ctxs tk)).
+Proof. exact newest_is_resume_iff_active_tree_guard. Qed.
+Print Assumptions C06_newest_is_resume_iff_active_guard.
+
+Theorem C06_all_paused_at_flush_and_end_guard : forall P, pointwise P -> forall p, tree p -> wn [] p -> forall n t cid,
+  let h := fst (create [] (FTask p) (st0 P)) in
+  let s1 := snd (create [] (FTask p) (st0 P)) in
+  (forall k, (k < n)%nat -> guard_fires P (run P k (start h s1)) = false) ->
+  (c_mode (run P n (start h s1)) = MAfterExec \/ exists o, c_mode (run P n (start h s1)) = MDone o) ->
+  match filter (evk t cid) (trace (c_st (run P n (start h s1)))) with [] => True | e :: _ => e = EvPause t cid end.
+Proof. exact all_paused_at_flush_and_end_tree_guard. Qed.
+Print Assumptions C06_all_paused_at_flush_and_end_guard.
+
+Theorem C06_resumed_while_own_code_runs_guard : forall P, pointwise P -> forall p, tree p -> wn [] p -> forall n t q,
+  let h := fst (create [] (FTask p) (st0 P)) in
+  let s1 := snd (create [] (FTask p) (st0 P)) in
+  (forall k, (k < n)%nat -> guard_fires P (run P k (start h s1)) = false) ->
+  c_mode (run P n (start h s1)) = MRun t q ->
+  let s := c_st (run P n (start h s1)) in
+  forall tk, get t s = Some (mkFut None (KTask tk)) -> forall cid f, In (CAsync cid f) (tk_ctxs tk) ->
+    exists rest, filter (evk t cid) (trace s) = EvResume t cid :: rest.
+Proof. exact resumed_while_own_code_runs_tree_guard. Qed.
+Print Assumptions C06_resumed_while_own_code_runs_guard.
+
+Theorem C06_resumed_only_in_awaiting_tasks_guard : forall P, pointwise P -> forall p, tree p -> wn [] p -> forall n t q u cid,
+  let h := fst (create [] (FTask p) (st0 P)) in
+  let s1 := snd (create [] (FTask p) (st0 P)) in
+  (forall k, (k < n)%nat -> guard_fires P (run P k (start h s1)) = false) ->
+  c_mode (run P n (start h s1)) = MRun t q ->
+  let s := c_st (run P n (start h s1)) in
+  (exists rest, filter (evk u cid) (trace s) = EvResume u cid :: rest) -> reach s u t.
+Proof. exact resumed_only_in_awaiting_tasks_tree_guard. Qed.
+Print Assumptions C06_resumed_only_in_awaiting_tasks_guard.
